@@ -17,7 +17,8 @@ import time
 
 VERIF = os.path.dirname(os.path.dirname(os.path.abspath(__file__)))
 REPO = os.environ.get("VERIF_REPO", "/repo")
-BUILD = os.path.join(VERIF, "build")
+OUT = os.environ.get("VERIF_OUT", VERIF)     # where evidence/ and replays/ are written
+BUILD = os.environ.get("VERIF_BUILD", os.path.join(VERIF, "build"))
 TARGET = os.path.join(BUILD, "target")
 DELTA = os.path.join(TARGET, "debug", "delta")
 FIXBIN = os.path.join(BUILD, "fixtures")
@@ -149,7 +150,7 @@ class Run:
 
 
 def run_delta(args, stdin=b"", env=None, timeout=20, cwd=None, binary=None, mem_kb=None,
-              prefix_args=("--paging", "never")):
+              prefix_args=("--paging", "never"), allow_usage_error=False):
     """Run the freshly built delta once. Returns a Run. Never raises on crash (a crash is data)."""
     r = Run()
     r.argv = [binary or DELTA] + list(prefix_args) + list(args)
@@ -170,7 +171,16 @@ def run_delta(args, stdin=b"", env=None, timeout=20, cwd=None, binary=None, mem_
     except subprocess.TimeoutExpired as e:
         r.out, r.err, r.code, r.timed_out = e.stdout or b"", e.stderr or b"", -999, True
     r.wall = time.time() - t0
+    if not allow_usage_error and r.code == 2 and b"Usage:" in r.err:
+        # clap rejected the command line: a mistake of the harness, never a verdict about delta
+        raise ToolError("delta rejected the harness's arguments: " + " ".join(r.argv[1:])[:300] + " :: "
+                        + lexer_strip(r.err)[:300])
     return r
+
+
+def lexer_strip(b):
+    import re
+    return re.sub(rb"\x1b\[[0-9;]*m", b"", b).decode("utf-8", "replace")
 
 
 def pmap(fn, items, jobs=None):
@@ -186,7 +196,7 @@ def pmap(fn, items, jobs=None):
 # replay files, known findings, evidence
 
 def write_replay(pid, payload):
-    d = os.path.join(VERIF, "replays", pid)
+    d = os.path.join(OUT, "replays", pid)
     os.makedirs(d, exist_ok=True)
     blob = json.dumps(payload, sort_keys=True, default=str)
     name = hashlib.sha256(blob.encode()).hexdigest()[:12] + ".json"
@@ -245,7 +255,7 @@ class Verdict:
 
 
 def write_evidence(pid, tier, level, coverage, wall_s, violations, assumptions=None):
-    os.makedirs(os.path.join(VERIF, "evidence"), exist_ok=True)
+    os.makedirs(os.path.join(OUT, "evidence"), exist_ok=True)
     ev = {
         "property_id": pid,
         "tier": tier,
@@ -256,6 +266,6 @@ def write_evidence(pid, tier, level, coverage, wall_s, violations, assumptions=N
         "wall_s": round(wall_s, 2),
         "violations": violations,
     }
-    with open(os.path.join(VERIF, "evidence", f"{pid}.json"), "w") as f:
+    with open(os.path.join(OUT, "evidence", f"{pid}.json"), "w") as f:
         json.dump(ev, f, indent=1, default=str)
     return ev
